@@ -66,7 +66,7 @@ def run(ctx):
         upd = None
         sel_after = {}
         for e, loops in all_events(p):
-            if e["k"] != "sql" or e["db"] != "chan" or e["func"] != "Mailbox.close":
+            if e["k"] != "sql" or e["db"] != "chan" or "Mailbox.close" not in e["stack"]:
                 continue
             st = e["stmt"]
             if st.table == "mailbox_sides" and st.kind == "update":
@@ -93,7 +93,7 @@ def run(ctx):
                     if eq is None or set(eq) != {"mailbox_id"} or \
                             not is_own_mailbox_id(eq["mailbox_id"]):
                         continue
-                    found, ok, text = guards.guard_verdict(e["pc"], rows, "opened")
+                    found, ok, text = guards.guard_verdict(e["pc"][len(sel["pc"]):], rows, "opened")
                     if found:
                         verdict = (ok, text)
                 if verdict is None:
@@ -162,6 +162,12 @@ def run(ctx):
         sent = [frame_type(e) for e, _ in all_events(p, ("send",))]
         ok = p.outcome.kind == "return" and sent.count("closed") == 1 and \
             sent[-1] == "closed"
+        closes = [e for e, _ in all_events(p, ("call",)) if e["callee"] == "Mailbox.close"]
+        okc = bool(closes)
+        ctx.ob("R08.answer", "%s: `closed` only after the close operation ran" % h, okc,
+               p.events[-1], "" if okc else "a close that passes validation is answered "
+               "without closing the mailbox in the database: this side's row stays open and "
+               "the mailbox is never deleted", None if okc else render_path(p.events))
         ctx.ob("R08.answer", "%s: answers closed" % h, ok, p.events[-1],
                "" if ok else "a close that passes validation ends with frames %s (%s %s)"
                % (sent, p.outcome.kind, p.outcome.cls or ""),
